@@ -640,10 +640,59 @@ func (x *Exec) havocLoop(st *State, la *loopAnalysis, head *ssa.BasicBlock, spec
 		st.bumpAlloc()
 	}
 	x.havocIters(st, la.body[head])
-	// ghosts that are updated anywhere but at entry may change in the loop
+	// ghosts whose update is anchored inside the loop body (a call site, send or map store in one of
+	// its blocks, or the head of this or a nested loop) may change in the loop
 	if f := st.Frame; f.Fn == x.Fn && x.FC != nil {
+		x.siteWithOrdinal(head.Instrs[0], "") // make sure the ordinals are computed
+		inLoop := map[string]bool{}
+		other := false
+		for b := range la.body[head] {
+			if ord, ok := la.heads[b]; ok {
+				inLoop[fmt.Sprintf("loop:%d", ord)] = true
+			}
+			for _, ins := range b.Instrs {
+				switch ins.(type) {
+				case ssa.CallInstruction:
+					if n, ok := x.callOrd[ins]; ok {
+						inLoop[n] = true
+						if i := strings.Index(n, "#"); i > 0 {
+							inLoop[n[:i]] = true
+						}
+					} else {
+						other = true // a call without a static name (closure variable, ...)
+					}
+				case *ssa.Send, *ssa.Select, *ssa.MapUpdate:
+					other = true
+				}
+			}
+		}
+		anchored := func(at string) bool {
+			if strings.HasPrefix(at, "loop:") {
+				return inLoop[at]
+			}
+			for _, pre := range []string{"call:", "after:"} {
+				if strings.HasPrefix(at, pre) {
+					n := strings.TrimPrefix(at, pre)
+					if strings.HasPrefix(n, "send:") || strings.HasPrefix(n, "mapstore:") {
+						return other
+					}
+					if inLoop[n] {
+						return true
+					}
+					// names the ordinal table does not know (dynamic callees) are treated as possibly inside
+					known := false
+					for _, v := range x.callOrd {
+						if v == n || strings.HasPrefix(v, n+"#") {
+							known = true
+						}
+					}
+					return !known && other
+				}
+			}
+			return true
+		}
 		for _, g := range x.FC.Ghosts {
-			if g.At == "entry" {
+			if g.At == "entry" || !anchored(g.At) {
 				continue
 			}
 			if i := strings.Index(g.LHS, "("); i > 0 {
@@ -651,12 +700,17 @@ func (x *Exec) havocLoop(st *State, la *loopAnalysis, head *ssa.BasicBlock, spec
 				st.havocHeapWhere(func(k string) bool { return k == key })
 				continue
 			}
-			if v, ok := st.Ghost[g.LHS]; ok {
-				if sc, ok := v.(Scalar); ok {
-					nv := Scalar{Fresh("gh$"+g.LHS, sc.T.Sort), sc.Ty}
-					st.Assume(st.A.RangeInv(nv.T, sc.Ty))
-					st.Ghost[g.LHS] = nv
-				}
+			switch v := st.Ghost[g.LHS].(type) {
+			case Scalar:
+				nv := Scalar{Fresh("gh$"+g.LHS, v.T.Sort), v.Ty}
+				st.Assume(st.A.RangeInv(nv.T, v.Ty))
+				st.Ghost[g.LHS] = nv
+			case SliceV:
+				st.Ghost[g.LHS] = st.freshValue("gh$"+g.LHS, types.NewSlice(v.Elem))
+			case StructV:
+				st.Ghost[g.LHS] = st.freshValue("gh$"+g.LHS, v.Ty)
+			case StringV:
+				st.Ghost[g.LHS] = st.freshValue("gh$"+g.LHS, tyString)
 			}
 		}
 	}
